@@ -340,6 +340,12 @@ def _inherit_ctx_bypass(program, run):
         if not fd.info and fd.key.startswith("C08/ctx-bypass:"):
             run.finding("C18/dialect-form-bypass:" + fd.key.split(":", 1)[1], "an Interval in this position is written in the default dialect's quoting form: " + fd.what,
                         where=fd.where, rule="inherited from C08/R1")
+    for fd in sub.findings:
+        if not fd.info and fd.key.startswith("C08/entry-context-drops:") and ":dialect:" in fd.key:
+            run.finding("C18/dialect-not-delivered:" + fd.key.split(":", 1)[1], "Interval.get_sql picks its quoting template from ctx.dialect: " + fd.what, where=fd.where, rule="inherited from C08/R1c")
+    for o in sub.obligations:
+        if o.rule.startswith("C08/R1c") and o.subject.endswith(":dialect"):
+            run.ob("C18 (inherited from C08/R1c) the statement's dialect reaches operands of a top-level set operation", o.subject, o.ok, o.detail, o.where)
     n = sum(1 for o in sub.obligations if o.rule.startswith("C08/R1 dialect fields inherited"))
     run.ob("C18 (inherited from C08/R1) no child node is formatted with str()/format instead of get_sql(ctx)", "package",
            not any(fd.key.startswith("C08/ctx-bypass:") for fd in sub.findings if not fd.info), detail=f"{n} nested render sites examined by C08/R1")
